@@ -241,6 +241,35 @@ theorem decodeSequentialAttributes_post (opts : DecOpts) (np : Nat) :
     | split
     | apply Post.bind_any; intro _
 
+theorem finishSeqAttribute_post (opts : DecOpts) (st : SeqAttState) (nv : Nat)
+    (mp : Option (List Nat)) :
+    Post (finishSeqAttribute opts st nv mp) (fun a => a.numValues = nv ∧ a.map = mp) := by
+  unfold finishSeqAttribute
+  simp only [pure]
+  repeat' first
+    | exact Post.ret ⟨rfl, rfl⟩
+    | exact Post.fail
+    | apply Post.ite <;> intro _
+    | split
+
+/-- the controller for bitstreams < 2.0 -/
+theorem decodeSequentialAttributesLegacy_post (opts : DecOpts) (np : Nat) :
+    Post (decodeSequentialAttributesLegacy opts np) (fun r => ∀ a ∈ r, AttPerPoint np a) := by
+  unfold decodeSequentialAttributesLegacy
+  simp only [bind, pure]
+  iterate 6 (apply Post.bind_any; intro _)
+  exact Post.mono (Post.mapM' (fun st => finishSeqAttribute_post opts st np none) _)
+    (fun a h => h.1)
+
+theorem decodeSequentialAttributesV_post (opts : DecOpts) (np : Nat) :
+    Post (decodeSequentialAttributesV opts np) (fun r => ∀ a ∈ r, AttPerPoint np a) := by
+  unfold decodeSequentialAttributesV
+  simp only [bind]
+  apply Post.bind_any; intro ver
+  apply Post.ite <;> intro _
+  · exact decodeSequentialAttributesLegacy_post opts np
+  · exact decodeSequentialAttributes_post opts np
+
 theorem decodePointAttributesSeq_post (opts : DecOpts) (np : Nat) :
     Post (decodePointAttributesSeq opts np) (fun r => ∀ a ∈ r, AttPerPoint np a) := by
   unfold decodePointAttributesSeq
@@ -249,7 +278,7 @@ theorem decodePointAttributesSeq_post (opts : DecOpts) (np : Nat) :
   apply Post.ite <;> intro _
   · exact Post.ret (by simp)
   · apply Post.ite <;> intro _
-    · exact decodeSequentialAttributes_post opts np
+    · exact decodeSequentialAttributesV_post opts np
     · exact Post.failWith _
 
 /-- what C09 needs of a decoded geometry: one attribute value per point (identity mapping),
@@ -324,6 +353,26 @@ theorem decodeSequentialAttributes_length (o1 o2 : DecOpts) (np : Nat) :
     (Post.mapM' (P := fun _ => True) (fun _ _ _ _ _ => trivial) _)
     (fun a b ha hb => ha.2.trans hb.2.symm)
 
+theorem decodeSequentialAttributesLegacy_length (o1 o2 : DecOpts) (np : Nat) :
+    Post2 (decodeSequentialAttributesLegacy o1 np) (decodeSequentialAttributesLegacy o2 np)
+      (fun r1 r2 => r1.length = r2.length) := by
+  unfold decodeSequentialAttributesLegacy
+  simp only [bind, pure]
+  iterate 6 (apply Post2.bind_same; intro _)
+  exact Post2.of_post (Post.mapM' (P := fun _ => True) (fun _ _ _ _ _ => trivial) _)
+    (Post.mapM' (P := fun _ => True) (fun _ _ _ _ _ => trivial) _)
+    (fun a b ha hb => ha.2.trans hb.2.symm)
+
+theorem decodeSequentialAttributesV_length (o1 o2 : DecOpts) (np : Nat) :
+    Post2 (decodeSequentialAttributesV o1 np) (decodeSequentialAttributesV o2 np)
+      (fun r1 r2 => r1.length = r2.length) := by
+  unfold decodeSequentialAttributesV
+  simp only [bind]
+  apply Post2.bind_same; intro ver
+  apply Post2.ite_same <;> intro _
+  · exact decodeSequentialAttributesLegacy_length o1 o2 np
+  · exact decodeSequentialAttributes_length o1 o2 np
+
 theorem decodePointAttributesSeq_length (o1 o2 : DecOpts) (np : Nat) :
     Post2 (decodePointAttributesSeq o1 np) (decodePointAttributesSeq o2 np)
       (fun r1 r2 => r1.length = r2.length) := by
@@ -334,7 +383,7 @@ theorem decodePointAttributesSeq_length (o1 o2 : DecOpts) (np : Nat) :
   · exact Post2.of_post (Post.ret (P := fun r => r = []) rfl) (Post.ret (P := fun r => r = []) rfl)
       (fun a b ha hb => by rw [ha, hb])
   · apply Post2.ite_same <;> intro _
-    · exact decodeSequentialAttributes_length o1 o2 np
+    · exact decodeSequentialAttributesV_length o1 o2 np
     · exact Post2.failWith _ _
 
 /-- two successful decodes of the same stream under different decoder options (in particular
